@@ -134,10 +134,10 @@ pub fn generate(prop: &str, tier: &str, r: &mut Rng, out: &mut Vec<String>) -> G
                                 let mut attrs = vec![("printer-state".to_string(), ipp::prelude::IppValue::Enum(state))];
                                 match rr.below(4) {
                                     0 => {}
-                                    1 => attrs.push(("printer-state-reasons".into(), ipp::prelude::IppValue::Keyword((*rr.pick(&["none", "paused", "media-low", "toner-empty"])).to_string()))),
+                                    1 => attrs.push(("printer-state-reasons".into(), ipp::prelude::IppValue::Keyword((*rr.pick(&["none", "paused", "media-low", "toner-empty", "media-jam", "spool-area-full", "cover-open", "door-open", "input-tray-missing", "output-tray-missing", "marker-supply-empty", "shutdown", "toner-low"])).to_string()))),
                                     _ => attrs.push(("printer-state-reasons".into(), ipp::prelude::IppValue::Array(vec![
                                         ipp::prelude::IppValue::Keyword("media-low".into()),
-                                        ipp::prelude::IppValue::Keyword((*rr.pick(&["none", "door-open", "toner-low", "shutdown"])).to_string()),
+                                        ipp::prelude::IppValue::Keyword((*rr.pick(&["none", "door-open", "toner-low", "shutdown", "output-tray-missing", "marker-supply-empty", "input-tray-missing", "media-jam", "spool-area-full", "cover-open", "paused", "toner-empty"])).to_string()),
                                     ]))),
                                 }
                                 show_msg(&Msg { version: 0x0101, op: status, id: 1, groups: vec![(1, vec![("attributes-charset".into(), ipp::prelude::IppValue::Charset("utf-8".into()))]), (4, attrs)] })
@@ -367,7 +367,7 @@ pub fn generate(prop: &str, tier: &str, r: &mut Rng, out: &mut Vec<String>) -> G
                     1 => 1,
                     2..=3 => rr.range(2, 300) as usize,
                     4 => rr.range(300, 5000) as usize,
-                    _ => if thorough && rr.chance(1, 20) { rr.range(1 << 20, 3 << 20) as usize } else { rr.range(5000, 70000) as usize },
+                    _ => if thorough && rr.chance(1, 20) { rr.range(1 << 20, 3 << 20) as usize } else { rr.range(5000, 300000) as usize },
                 };
                 let pay = rr.bytes(plen);
                 let mut evs = random_composition(&mut rr, &pay);
@@ -381,7 +381,7 @@ pub fn generate(prop: &str, tier: &str, r: &mut Rng, out: &mut Vec<String>) -> G
                     evs.clear();
                 }
                 let nsz = rr.below(40);
-                let sizes: Vec<String> = (0..nsz).map(|_| match rr.below(5) { 0 => 1, 1 => rr.range(1, 16), 2 => rr.range(1, 300), 3 => rr.range(1, 4096), _ => rr.range(1, 65536) }.to_string()).collect();
+                let sizes: Vec<String> = (0..nsz).map(|_| match rr.below(7) { 0 => 1, 1 => rr.range(1, 16), 2 => rr.range(1, 300), 3 => rr.range(1, 4096), 4 => *rr.pick(&[2u64, 255, 256, 4095, 4096, 8192, 32768, 65535, 65536]), 5 => 65536, _ => rr.range(1, 65536) }.to_string()).collect();
                 out.push(format!("stream {} {} {} (pay{}{}) (sizes{}{})", kind, cons, show_msg(&m),
                     if evs.is_empty() { "" } else { " " }, crate::sources::show_events(&evs),
                     if sizes.is_empty() { "" } else { " " }, sizes.join(" ")));
@@ -492,6 +492,15 @@ pub fn generate(prop: &str, tier: &str, r: &mut Rng, out: &mut Vec<String>) -> G
                 let (body, _) = resp_bytes(&mut rr);
                 out.push(format!("send {} {} - {} (target 2f) (srv 200 cl {} (stall 1500))", c, show_msg(&m), gen_cfg(&mut rr, Some(300)), hex(&body)));
                 out.push(format!("send {} {} - {} (target 2f) (srv 200 cl {} (stall 50))", c, show_msg(&m), gen_cfg(&mut rr, Some(5000)), hex(&body)));
+            }
+            // a server that trickles the response: every read makes progress but the exchange exceeds the timeout
+            for c in clients {
+                let mut rr = r.fork();
+                let m = gen_msg(&mut rr, &lim);
+                let (body, _) = resp_bytes(&mut rr);
+                let frag = 3usize;
+                let count = (body.len() + frag - 1) / frag;
+                out.push(format!("send {} {} - {} (target 2f) (srv 200 cl {} (frags {}) (drip 60) (takes {}))", c, show_msg(&m), gen_cfg(&mut rr, Some(400)), hex(&body), frag, 60 * count));
             }
             for c in clients {
                 out.push(format!("send_many {} {}", c, if thorough { 32 } else { 16 }));
